@@ -1,4 +1,4 @@
-import LyModel.Path.LemmasGrammar
+import LyModel.Path.LemmasNew
 /-!
 # C15 — a node's path identifies that node, and paths create what they name
 
@@ -173,5 +173,215 @@ example :
        ⟨[108], .keys [([107, 49], .lit [97, 32, 98]), ([107, 50], .lit [105, 116, 39, 115])]⟩,
        ⟨[109, 98, 58, 120], .none⟩] := by
   decide
+
+/-! ## searching and creating along the printed path -/
+
+/-- What the theorems below ask of a node's ancestor-or-self chain `ls` in tree `f` under schema `schema`:
+    it is the chain of address `a`; names are identifiers and predicate values have a literal form (`Printable`);
+    each element is unique among its siblings in the way its predicate needs (`Addressable`: keys unique among list
+    instances, values unique among configuration leaf-list instances, instances contiguous for positions, single
+    instance otherwise); and the chain instantiates schema nodes of `schema` (`Conforms`). -/
+structure ChainOK (schema : List SNode) (f : Forest) (a : Addr) (ls : List Level) : Prop where
+  levels : levels f a = some ls
+  ne : ls ≠ []
+  printable : ∀ l ∈ ls, l.Printable
+  addressable : ∀ l ∈ ls, l.Addressable
+  conforms : Conforms schema ls
+
+theorem ChainOK.compiled {schema : List SNode} {f : Forest} {a : Addr} {ls : List Level} (h : ChainOK schema f a ls)
+    (single : Bool) : ∃ p, pathOf f a = some p ∧ p.head? = some 47 ∧ compilePath schema single p = .ok (ls.map cstepOf) := by
+  obtain ⟨p, hp, hparse⟩ := path_parse_print f a ls h.levels h.ne
+    (fun l hl => ⟨h.printable l hl, (h.addressable l hl).keysNodup⟩)
+  refine ⟨p, hp, ?_, ?_⟩
+  · have := pathOf_eq_text h.levels h.ne
+    rw [hp] at this
+    cases this
+    cases hls : ls with
+    | nil => exact absurd hls h.ne
+    | cons l rest => simp [levelsText, stepText_eq]
+  · have hc := compileSteps_levels single a f none ls schema none h.levels h.conforms h.printable trivial
+    simp [compilePath, hparse, hc]
+
+/-- **path_finds_node.** For every node whose chain is `ChainOK`: the path `lyd_path` prints for it is accepted by
+    `lyd_find_path` (parse, compile against the schema, evaluate) and the search returns exactly that node — by key
+    predicates for keyed lists, by value for configuration leaf-lists, by position for key-less lists and state
+    leaf-lists, with the module prefix exactly where the module changes. -/
+theorem path_finds_node (schema : List SNode) (f : Forest) (a : Addr) (ls : List Level) (h : ChainOK schema f a ls) :
+    ∃ p, pathOf f a = some p ∧ findPath schema f p = .ok a := by
+  obtain ⟨p, hp, _, hc⟩ := h.compiled true
+  refine ⟨p, hp, ?_⟩
+  have he := evalSteps_levels a f none ls h.levels h.addressable
+  have hlen : 0 < ls.length := by
+    cases hls : ls with
+    | nil => exact absurd hls h.ne
+    | cons _ _ => simp
+  simp [findPath, hc, evalPath, he, hlen]
+
+theorem conforms_hasKey : ∀ (ls : List Level) (sch : List SNode), Conforms sch ls → ∀ l ∈ ls, l.HasKey := by
+  intro ls
+  induction ls with
+  | nil => intro _ _ l hl; simp at hl
+  | cons x rest ih =>
+    intro sch hc l hl
+    obtain ⟨s, _, hso, hrest⟩ := hc
+    simp only [List.mem_cons] at hl
+    rcases hl with rfl | hl
+    · exact hso.hasKey
+    · exact ih s.children hrest l hl
+
+/-- **new_path_exists.** `lyd_new_path` with the printed path of a node that exists (in a tree without default-flagged
+    nodes, any value, no `LYD_NEW_PATH_UPDATE`) reports `LY_EEXIST` — for every node, also the position-addressed
+    ones — instead of creating a duplicate. -/
+theorem new_path_exists (schema : List SNode) (f : Forest) (a : Addr) (ls : List Level) (v : Bytes)
+    (h : ChainOK schema f a ls) : ∃ p, pathOf f a = some p ∧ newPath schema f p v = .error .exists := by
+  obtain ⟨p, hp, hhead, hc⟩ := h.compiled false
+  refine ⟨p, hp, ?_⟩
+  have hcf := checkFind_levels v ls 0 (conforms_hasKey ls schema h.conforms)
+  have he := evalSteps_levels a f none ls h.levels h.addressable
+  have hlen : 0 < ls.length := by
+    cases hls : ls with
+    | nil => exact absurd hls h.ne
+    | cons _ _ => simp
+  simp [newPath, hhead, hc, hcf, he, hlen]
+
+/-- the value of the last chain element: what the caller passes to `lyd_new_path` -/
+def lastValue : List Level → Bytes
+  | [] => []
+  | [l] => l.node.value
+  | _ :: l2 :: rest => lastValue (l2 :: rest)
+
+theorem lastValueIs_lastValue : ∀ (ls : List Level), lastValueIs (lastValue ls) ls := by
+  intro ls
+  induction ls with
+  | nil => trivial
+  | cons l rest ih =>
+    cases rest with
+    | nil => simp [lastValueIs, lastValue]
+    | cons l2 r => simpa [lastValueIs, lastValue] using ih
+
+/-- the top-level element of the chain is addressed by a position greater than 1 (finding F50) -/
+def TopPositionAbove1 : List Level → Prop
+  | [] => False
+  | l :: _ => l.node.kind.dupInst = true ∧ 1 < listPos l.sibs l.idx l.node
+
+/-- **new_path_chain** (full statement): `lyd_new_path(NULL, ctx, lyd_path(n), value(n))` creates, in an empty tree, a
+    chain equal (content-wise: names, modules, kinds, key leaves, value) to `n` and its ancestors.
+    FALSE for the code: finding F50. -/
+def NewPathChain : Prop :=
+  ∀ (schema : List SNode) (f : Forest) (a : Addr) (ls : List Level) (c : DNode), ChainOK schema f a ls →
+    (∀ l ∈ ls, l.TermNoKids) → chainOf ls = some c →
+    ∃ p, pathOf f a = some p ∧ newPath schema [] p (lastValue ls) = .ok ⟨[], c⟩
+
+/-- F50 witness: two instances of a top-level key-less list `kl`; the path of the second, `/ma:kl[2]`, cannot be created in
+    an empty tree: "Cannot create "kl" on position 2, no instances exist" (`LY_EINVAL`). -/
+def f50Schema : List SNode := [.mk [109, 97] [107, 108] .keyless []]
+def f50Tree : Forest := [.mk [109, 97] [107, 108] .keyless [] [], .mk [109, 97] [107, 108] .keyless [] []]
+def f50Levels : List Level := [⟨f50Tree, 1, f50Tree[1]!, none⟩]
+
+theorem f50_chainOK : ChainOK f50Schema f50Tree [1] f50Levels where
+  levels := rfl
+  ne := by simp [f50Levels]
+  printable := by
+    intro l hl
+    simp only [f50Levels, List.mem_singleton] at hl
+    subst hl
+    exact ⟨by decide, by decide, by decide, by decide, by decide⟩
+  addressable := by
+    intro l hl
+    simp only [f50Levels, List.mem_singleton] at hl
+    subst hl
+    refine ⟨by decide, ?_⟩
+    show ∃ pre blk post, _
+    exact ⟨[], f50Tree, [], rfl, by decide, by decide, by decide, by decide⟩
+  conforms := ⟨f50Schema[0]!, rfl, ⟨rfl, rfl, by decide, by intro c hc; cases hc⟩, trivial⟩
+
+/-- non-vacuity of `ChainOK` together with the hypothesis of `new_path_chain_partial`: the first `kl` instance (`/ma:kl[1]`) -/
+example : ChainOK f50Schema f50Tree [0] [⟨f50Tree, 0, f50Tree[0]!, none⟩] ∧
+    ¬ TopPositionAbove1 [⟨f50Tree, 0, f50Tree[0]!, none⟩] := by
+  refine ⟨⟨rfl, by simp, ?_, ?_, ?_⟩, by decide⟩
+  · intro l hl
+    simp only [List.mem_singleton] at hl
+    subst hl
+    exact ⟨by decide, by decide, by decide, by decide, by decide⟩
+  · intro l hl
+    simp only [List.mem_singleton] at hl
+    subst hl
+    refine ⟨by decide, ?_⟩
+    show ∃ pre blk post, _
+    exact ⟨[], f50Tree, [], rfl, by decide, by decide, by decide, by decide⟩
+  · exact ⟨f50Schema[0]!, rfl, ⟨rfl, rfl, by decide, by intro c hc; cases hc⟩, trivial⟩
+
+theorem new_path_chain_fails : ¬ NewPathChain := by
+  intro h
+  have hterm : ∀ l ∈ f50Levels, l.TermNoKids := by
+    intro l hl
+    simp only [f50Levels, List.mem_singleton] at hl
+    subst hl
+    intro hk
+    rcases hk with hk | ⟨k, hk⟩
+    · cases hk
+    · cases hk
+  obtain ⟨p, hp, hn⟩ := h f50Schema f50Tree [1] f50Levels _ f50_chainOK hterm rfl
+  have hp' : pathOf f50Tree [1] = some [47, 109, 97, 58, 107, 108, 91, 50, 93] := by decide   -- /ma:kl[2]
+  rw [hp'] at hp
+  cases hp
+  have : newPath f50Schema [] [47, 109, 97, 58, 107, 108, 91, 50, 93] (lastValue f50Levels) = .error .einval := rfl
+  rw [this] at hn
+  cases hn
+
+/-- **new_path_chain_partial.** Unless the chain's top-level element is addressed by a position above 1: creating the
+    printed path with the node's value in an empty tree succeeds, attaches at the top level, and the created chain is
+    the node and its ancestors — lists with exactly their key leaves, position-addressed elements as the first
+    instance, the module of every element as in the original. -/
+theorem new_path_chain_partial (schema : List SNode) (f : Forest) (a : Addr) (ls : List Level) (c : DNode)
+    (h : ChainOK schema f a ls) (hterm : ∀ l ∈ ls, l.TermNoKids) (hc : chainOf ls = some c)
+    (hpos : ¬ TopPositionAbove1 ls) :
+    ∃ p, pathOf f a = some p ∧ newPath schema [] p (lastValue ls) = .ok ⟨[], c⟩ := by
+  obtain ⟨p, hp, hhead, hcomp⟩ := h.compiled false
+  refine ⟨p, hp, ?_⟩
+  have hcf := checkFind_levels (lastValue ls) ls 0 (conforms_hasKey ls schema h.conforms)
+  have hcreate := createChain_levels (lastValue ls) a f none ls h.levels
+    (fun l hl => ⟨(h.addressable l hl).keysNodup, hterm l hl⟩) (lastValueIs_lastValue ls)
+  have hposbad : posBad [] (ls.map cstepOf) = false := by
+    cases hls : ls with
+    | nil => rfl
+    | cons l rest =>
+      rw [hls] at hpos
+      simp only [TopPositionAbove1, not_and] at hpos
+      simp only [List.map_cons, posBad]
+      cases hk : l.node.kind with
+      | inner => simp [cstepOf, cpredOf, hk]
+      | leaf k => simp [cstepOf, cpredOf, hk]
+      | list cfg => cases hks : keyLeaves l.node.children <;> simp [cstepOf, cpredOf, hk, hks]
+      | keyless =>
+        have := hpos (by simp [hk, Kind.dupInst])
+        simp [cstepOf, cpredOf, hk, Kind.dupInst, instCount, firstIdx]; omega
+      | leaflist cfg =>
+        cases cfg with
+        | true => simp [cstepOf, cpredOf, hk]
+        | false =>
+          have := hpos (by simp [hk, Kind.dupInst])
+          simp [cstepOf, cpredOf, hk, Kind.dupInst, instCount, firstIdx]; omega
+  simp [newPath, hhead, hcomp, hcf, evalSteps_empty, childrenAt, hposbad, hcreate, hc]
+
+/-- non-vacuity of the three theorems above: the leaf `mb:x` of `exTree` under a two-module schema -/
+def exSchema : List SNode :=
+  [.mk [109, 97] [99] .inner
+    [.mk [109, 97] [108] (.list true)
+      [.mk [109, 97] [107, 49] (.leaf true) [], .mk [109, 97] [107, 50] (.leaf true) [],
+       .mk [109, 98] [120] (.leaf false) []]]]
+
+/-- `/ma:c/l[k1='a b'][k2="it's"]/mb:x` -/
+def exPath : Bytes := [47, 109, 97, 58, 99, 47, 108, 91, 107, 49, 61, 39, 97, 32, 98, 39, 93, 91, 107, 50, 61, 34, 105, 116,
+  39, 115, 34, 93, 47, 109, 98, 58, 120]
+
+example : pathOf exTree [0, 0, 2] = some exPath ∧
+    (findPath exSchema exTree exPath).toOption = some [0, 0, 2] ∧
+    (match newPath exSchema exTree exPath [118] with | .error e => some e | .ok _ => none) = some Err.exists ∧
+    (newPath exSchema [] exPath [118]).toOption.map (fun c => (c.parent, c.chain.flat 0)) =
+      some ([], [⟨[109, 97], [99], .inner, [], 0⟩, ⟨[109, 97], [108], .list true, [], 1⟩,
+        ⟨[109, 97], [107, 49], .leaf true, [97, 32, 98], 2⟩, ⟨[109, 97], [107, 50], .leaf true, [105, 116, 39, 115], 2⟩,
+        ⟨[109, 98], [120], .leaf false, [118], 2⟩]) := by
+  decide +kernel
 
 end LyModel.Props.C15
